@@ -491,6 +491,23 @@ def variant_search(B, start, removed, resp_locals):
                             if v in ('?', nv):
                                 nxt.append((tgt, nv))
                         handled = True
+            if not handled and sd and 'core::result::Result<' in sd[1] and sd[0]['l'] in resp_locals and _outer(B, {'k': 'cp', 'pl': sd[0]}, resp_locals):
+                # `match outcome { Ok(..) => .., Err(_) => .. }` on the awaited result itself
+                pl, ty, cases, els = sd
+                got = set()
+                for val, tgt in cases:
+                    nv = 'Ok' if val == 0 else 'Err'
+                    got.add(nv)
+                    if v in ('?', nv):
+                        nxt.append((tgt, nv))
+                rest = {'Ok', 'Err'} - got
+                if els is not None and len(rest) == 1:
+                    nv = next(iter(rest))
+                    if v in ('?', nv):
+                        nxt.append((els, nv))
+                elif els is not None and rest:
+                    nxt.append((els, v))
+                handled = True
         if not handled:
             nxt = [(s_, v) for s_ in B.succ(bb)]
         for s_, nv in nxt:
